@@ -74,6 +74,16 @@ fn codec_job(seed: u64, j: usize, tier: Tier) -> Outcome {
                                 o.violate("partial_checksum_field_taken_as_zero", name, format!("{name} len {len} (buffer ends inside the checksum field) content kind {kind}: {g:#06x} != RFC 1071 with the field zeroed {want:#06x}"), replay.clone());
                             }
                         }
+                        // the buffer ends before the checksum field: there is nothing to take as
+                        // zero, the result is the plain RFC 1071 checksum of what is there
+                        // (the empty input is pinned by the repository's own tests to special values)
+                        Ok(g) if len >= 1 && len <= off => {
+                            let want = wire::csum(&[&pseudo, &data]);
+                            o.hit("short_input_is_plain_rfc1071");
+                            if g != want {
+                                o.violate("short_input_is_plain_rfc1071", name, format!("{name} len {len} (shorter than the offset of the checksum field) content kind {kind}: {g:#06x} != RFC 1071 {want:#06x}"), replay.clone());
+                            }
+                        }
                         Ok(_) => {}
                     }
                     continue;
@@ -167,7 +177,7 @@ fn paris_job(seed: u64, j: usize, tier: Tier) -> Outcome {
 
 pub fn run(tier: Tier, seed: u64, only: Option<String>) -> i32 {
     let mut rep = Report::new("C13", "exploration", tier, seed);
-    rep.rule = "codec: the six public checksum functions over every data length 0..=1024 x {zeros, 0xff.., carry maximising ff fe.., counting pattern, random} x 8 (thorough 64) IPv4 and IPv6 address pairs incl. all-zero and all-ones, compared with an independent RFC 1071 routine over pseudo header + data with the checksum field zeroed, then re-verified with the checksum inserted (sum 0xffff); lengths that do not reach the checksum field are only required not to panic, a buffer ending inside the field must be summed with the present half taken as zero; Paris: the datagrams dispatched by the real tracer in the 12 UDP/Paris cells over walked sequence ranges (thorough: every issuable sequence) x 3 port pairs are captured at send_to: checksum field = sequence and the datagram verifies; distinct by (address pair | cell, initial sequence, port pair)".into();
+    rep.rule = "codec: the six public checksum functions over every data length 0..=1024 x {zeros, 0xff.., carry maximising ff fe.., counting pattern, random} x 8 (thorough 64) IPv4 and IPv6 address pairs incl. all-zero and all-ones, compared with an independent RFC 1071 routine over pseudo header + data with the checksum field zeroed, then re-verified with the checksum inserted (sum 0xffff); lengths that do not reach the checksum field must give the plain RFC 1071 checksum of what is there, a buffer ending inside the field must be summed with the present half taken as zero; Paris: the datagrams dispatched by the real tracer in the 12 UDP/Paris cells over walked sequence ranges (thorough: every issuable sequence) x 3 port pairs are captured at send_to: checksum field = sequence and the datagram verifies; distinct by (address pair | cell, initial sequence, port pair)".into();
     rep.assumptions = vec!["the checksum field is taken as zero (the functions skip the word at the field's offset)".into()];
     rep.required_clauses = vec!["equals_rfc1071", "inserted_sums_to_ffff", "paris_checksum_is_sequence_and_verifies", "udp_probe_fields"];
     let n1 = tier.pick(32, 256);
